@@ -84,6 +84,12 @@ CHECKS = {
             "statement is multi-source, by alias if any, bare in INSERT columns / SET target / ON CONFLICT target / USING). SQLite-class SELECTs are prepared against a "
             "schema in which all tables share the column names, so a missing qualifier is reported by the engine as ambiguous and a wrong one as unknown.",
             "Trusted: the qualification model in pbt/props/c11.py; positions where SQL itself decides (upsert values) accept either form with the right name."),
+    "C13": ("Hypothesis-generated statement programs with random linear extensions of the documented call partial order and random sub-lists; snapshot equality across orders, clause-order tables over the reference lexer, SQLite parser",
+            "Every admissible order of the same calls must give the same rendering (the non-commuting pair is isolated by bubbling one order into the other); every "
+            "rendering has balanced brackets and its depth-0 clause keywords follow the class's clause-order table at most once each; a sub-list of the calls renders "
+            "the empty string, a complete statement or raises a library exception; SQLite-class statements incl. CREATE/DROP are prepared by the engine and may not "
+            "fail with a parse-class error.",
+            "Trusted: the partial order of non-commuting calls and the clause-order tables in pbt/props/c13.py (DESIGN.md Appendix B)."),
 }
 
 NOT_BUILT = {}
